@@ -79,10 +79,15 @@ def make_case(g, s_rules, t_rules, roots):
     lines.append("print([r.path for r in T.rules]); print([r.path for r in S.rules])")
     c.py = "\n".join(lines)
     try:
-        S = Schema([rc.build_rule(x) for x in s_rules])
+        s_list = [rc.build_rule(x) for x in s_rules]
+        S = Schema(s_list)
+        S_twin = Schema(s_list)          # another schema built from the same list object
         T = Schema([rc.build_rule(x) for x in t_rules])
     except TypeError:
         return None
+    s_list_before = [id(x) for x in s_list]
+    twin_before = snapshot_schema(S_twin)
+    expected_order = [("S", id(x)) for x in S.rules]
     t_before = snapshot_schema(T)
     s_terms = [enc.enc_rule(x) for x in S.rules]
     t_terms = [enc.enc_rule(x) for x in T.rules]
@@ -102,6 +107,28 @@ def make_case(g, s_rules, t_rules, roots):
         if snapshot_schema(T) != t_before:
             c.fail("added_schema_unchanged", f"T was changed by add_schema under root {root!r}")
             break
+        if snapshot_schema(S_twin) != twin_before or [id(x) for x in s_list] != s_list_before:
+            c.fail("independent_additions", "adding T to S changed another schema built from the same rule list (or the caller's list)")
+            break
+        # expected: previous rules, then T's rules re-rooted in T's order, stably sorted by path length
+        expected_order = expected_order + [("T", id(t.condition), len(root)) for t in T.rules]
+        lens = {}
+        for tag in expected_order:
+            pass
+        def plen(tag):
+            if tag[0] == "S":
+                return next(len(x.path) for x in s_list if id(x) == tag[1])
+            return tag[2] + next(len(t.path) for t in T.rules if id(t.condition) == tag[1])
+        expected_order = sorted(expected_order, key=plen)
+        got_order = []
+        for x in S.rules:
+            if id(x) in s_list_before:
+                got_order.append(("S", id(x)))
+            else:
+                got_order.append(("T", id(x.condition), len(x.path) - next(len(t.path) for t in T.rules if t.condition is x.condition)))
+        if got_order != expected_order:
+            c.fail("tie_order", "rules of S are not 'previous rules, then re-rooted rules', shortest path first with ties in that order")
+            expected_order = got_order
     c.ask(["add_schema", s_terms, calls], impl_states, "add_schema", lambda impl, model: None if impl == model else "rules differ")
     # rules of S afterwards: shortest path first, ties in insertion order
     lens = [len(x.path) for x in S.rules]
